@@ -57,6 +57,15 @@ def check(tier, seed):
             big = bytes((i * 5 + ln) % 253 for i in range(ln))
             jobs.append(('sign', s, sk0, big, b'L', mode, bytes(32)))
             meta.append((s, mode, f"bytes:{sk0.hex()}", big, b'L', bytes(32), 10 ** 6 + len(meta)))
+    # lengths at which tr || M' (64 + 2 + |ctx| + |M|) ends just before / on / after a SHAKE256 block boundary
+    for si, s in enumerate(fam.SETS):
+        sk0 = fam.keypair(s, fam.seeds(random.Random(seed), 1)[0])[1]
+        for k in (1, 2):
+            for t in range(136 * k - 66 - 2, 136 * k - 66 + 3):
+                cl = (0, t // 3, t // 2)[(t + si) % 3]
+                mm, cc = bytes((13 * i + t) % 256 for i in range(t - cl)), bytes((29 * i + t) % 256 for i in range(cl))
+                jobs.append(('sign', s, sk0, mm, cc, 'pure', bytes(32)))
+                meta.append((s, 'pure', f"bytes:{sk0.hex()}", mm, cc, bytes(32), 10 ** 6 + len(meta)))
     refs = fam.ref_map(jobs)
     cases = []
     for (s, mode, src, m, c, r, i), sig in zip(meta, refs):
